@@ -22,6 +22,11 @@
 #   f(a, k=b, …) with f an EXTERNAL function (EXT_FNS)   the arguments are bound to the parameters of f's OWN `def` in the current source (positional,
 #                                                        keyword, defaults `None` / str literals), and handed to the pure parameter `f_` in that order
 #   p = g(p)  (p a parameter re-bound to another type)  the parameter enters with its declared version (`names#2` is the re-bound one)
+#   isinstance(x, str) / os.path.abspath(x)  (x a PathOrIO)   Py.Src.isStr / the pure parameter `abspath` on Py.Src.strName
+#   a, b = g(x, **kw) / return g(…)  with g a RAISING external function (EXT_RAISING: pure parameter returning `Except Py.Exc T`)
+#                                                        the statement raises the exception g raised, else binds / returns the value;
+#                                                        `**kw` is handed over as ONE value (the keyword bundle)
+#   xs.extend(g)  (xs a list variable, g a generator)    xs = xs ++ list(g)
 #   f(args) where the callee has WORLD parameters        (name ends in `_`: the answer of an external library / the warnings log): the caller's
 #                                                        variable of the same name is passed (and written back if it is an out-parameter)
 #
@@ -34,6 +39,9 @@
 #   parse_swc (segment): none
 #   parse_swc (prologue segment): subst `RE_FLOAT` -> Gen.Consts.reFloat (the module constant, extracted on every run), `int` -> 0, `float` -> 1
 #                     (the conversion applied to a column = the dtype pandas infers for it: 0 = int64, 1 = float64)
+#   Tree.from_swc:    `read_swc` / `cls.from_data_frame` are the raising pure parameters `read_swc_` / `from_data_frame_`; `os.path.abspath` is
+#                     the pure parameter `abspath`; `**kwargs` is one opaque value
+#   Tree.from_eswc (segment: the two `extra_cols` statements): subst `eswc_cols` -> the list of (name, type name) pairs read from core/swc.py on every run
 #   SWCNames.cols:    none (`SWCNames` is the record of its seven fields)
 #   get_names:        subst  `swc_names` -> the record of the defaults of the class (Gen/Consts.lean `name_*`, extracted from SWCNames on every run)
 #   read_swc (segment):  `parse_swc` is the pure parameter `parse_swc_ : fname -> names -> extra_cols -> encoding -> Option (DF × CM)`
@@ -157,6 +165,15 @@ def _rf_expr(tr, e, want):
                 n = tr.bindname()
                 return s0 + [f"Py.bind (Py.optList {c}) fun {n} =>"], n, t[1]
             return None
+        if f == "isinstance" and len(e.args) == 2 and ast.unparse(e.args[1]) == "str":
+            s0, c, t = tr.tr(e.args[0])
+            return (s0, f"(Py.Src.isStr {c})", "Bool") if t == "PySrc" else None
+        if f == "os.path.abspath" and len(e.args) == 1 and not e.keywords and "abspath" in [b.split()[0].strip("(") for b in tr.spec.fparams]:
+            s0, c, t = tr.tr(e.args[0])
+            if t != "PySrc":
+                return None
+            n = tr.bindname()
+            return s0 + [f"Py.bind (Py.Src.strName {c}) fun {n} =>"], f"(abspath {n})", "String"
         if f == "re.compile" and len(e.args) == 1 and not e.keywords:
             s0, c, t = tr.tr(e.args[0])            # a compiled pattern is represented by its pattern text
             return (s0, c, t) if t == "String" else None
@@ -193,11 +210,62 @@ def _rf_expr(tr, e, want):
                 return None
             n = tr.bindname()
             return s0 + [f"Py.bind (if Py.optListTruthy {c} then {tr.opt_block(sa, ca)} else {tr.opt_block(sb, cb)}) fun {n} =>"], n, ta
+        if want is None and isinstance(e.orelse, ast.List) and not e.orelse.elts:
+            # `A if c else []`: the empty list has the type of A
+            sa, ca, ta = tr.tr(e.body)
+            sb, cb, tb = tr.tr(e.orelse, ta)
+            if ta != tb:
+                return None
+            n = tr.bindname()
+            return s0 + [f"Py.bind (if {tr.as_bool(c, t)} then {tr.opt_block(sa, ca)} else {tr.opt_block(sb, cb)}) fun {n} =>"], n, ta
         return None
     return None
 
 
+# RAISING external functions: python callee text -> (lean pure parameter, number of positional arguments, keyword names in order, takes **kw)
+EXT_RAISING = {"read_swc": ("read_swc_", 1, [], True), "cls.from_data_frame": ("from_data_frame_", 1, ["source", "comments"], False)}
+
+
+def _rf_raising_call(tr, e):
+    """(steps, lean term of type `Except Py.Exc T`) of a call of a raising external function, or None"""
+    if not isinstance(e, ast.Call) or ast.unparse(e.func) not in EXT_RAISING:
+        return None
+    pname, npos, kws, bundle = EXT_RAISING[ast.unparse(e.func)]
+    if pname not in [b.split()[0].strip("(") for b in tr.spec.fparams]:
+        return None
+    named = [k for k in e.keywords if k.arg is not None]
+    star = [k for k in e.keywords if k.arg is None]
+    if len(e.args) != npos or [k.arg for k in named] != kws or len(star) != (1 if bundle else 0):
+        raise Untranslatable(f"{tr.spec.lean}: call `{ast.unparse(e)}` of the external function")
+    steps, codes = [], []
+    for x in list(e.args) + [k.value for k in named] + [k.value for k in star]:
+        s0, c, _ = tr.tr(x)
+        steps += s0; codes.append(c)
+    return steps, f"({pname} {' '.join(codes)})"
+
+
 def _rf_stmt(tr, s):
+    if isinstance(s, (ast.Assign, ast.Return)) and tr.spec.raises:
+        r = _rf_raising_call(tr, s.value)
+        if r is not None:
+            steps, call = r
+            if isinstance(s, ast.Return):
+                return tr.chain(steps, f"match {call} with | .error e_ => Py.raise e_ v | .ok r_ => .ret v (.ok r_)")
+            tgt = s.targets[0]
+            if len(s.targets) == 1 and isinstance(tgt, ast.Tuple) and len(tgt.elts) == 2 and all(isinstance(x, ast.Name) for x in tgt.elts):
+                a, b = (lname(x.id) for x in tgt.elts)
+                return tr.chain(steps, f"match {call} with | .error e_ => Py.raise e_ v | .ok r_ => .next {{ v with {a} := r_.1, {b} := r_.2 }}")
+            raise Untranslatable(f"{tr.spec.lean}: `{ast.unparse(s)}`")
+    # xs.extend(generator)
+    if (isinstance(s, ast.Expr) and isinstance(s.value, ast.Call) and isinstance(s.value.func, ast.Attribute) and s.value.func.attr == "extend"
+            and isinstance(s.value.func.value, ast.Name) and len(s.value.args) == 1 and not s.value.keywords
+            and isinstance(s.value.args[0], (ast.GeneratorExp, ast.ListComp))):
+        g = s.value.args[0]
+        lc = ast.ListComp(g.elt, g.generators)
+        new = ast.Assign([ast.Name(s.value.func.value.id, ast.Store())],
+                         ast.BinOp(ast.Name(s.value.func.value.id, ast.Load()), ast.Add(), lc))
+        ast.copy_location(new, s); ast.fix_missing_locations(new)
+        return tr.stmt(new)
     # a PARAMETER that is re-bound to a value of another type (`names = get_names(names)`) enters with its declared (first) version
     todo = [n for n in tr.versions if tr.cur.get(n) is None and n in tr.spec.params]
     if todo:
@@ -279,3 +347,32 @@ spec(lean="read_swc_front", module="AlgoReadFront", file="swcgeom/core/swc_utils
      ret="Unit", out=["names#2", "df", "comments"],
      doc="`swcgeom/core/swc_utils/io.py::read_swc`, first half: `names = get_names(names)` and the call of `parse_swc` (the pure parameter "
          "`parse_swc_`, its arguments bound to the parameters of parse_swc's own `def`)")
+
+_RF_TREE = "swcgeom/core/tree.py"
+spec(lean="tree_from_swc", module="AlgoReadFront", file=_RF_TREE, cls="Tree", func="from_swc", raises=True,
+     params=["swc_file", "kwargs"], tparams=["KW", "DF", "CM", "T"],
+     fparams=["(read_swc_ : Py.Src → KW → Except Py.Exc (DF × CM))", "(from_data_frame_ : DF → String → CM → Except Py.Exc T)",
+              "(abspath : String → String)"],
+     vars={"swc_file": "PySrc", "kwargs": "KW", "df": "DF", "comments": "CM", "source": "String", "e": "Exc"},
+     ret="T",
+     doc="`swcgeom/core/tree.py::Tree.from_swc` (`read_swc`, `cls.from_data_frame`, `os.path.abspath` are pure parameters; `**kwargs` is one value)")
+
+
+def _rf_eswc_cols():
+    """the module constant `eswc_cols` of core/swc.py as a Lean list of (name, type name) pairs, read from the current source"""
+    tree = ast.parse((REPO / "swcgeom/core/swc.py").read_text())
+    for nd in tree.body:
+        tgt = nd.targets[0] if isinstance(nd, ast.Assign) else (nd.target if isinstance(nd, ast.AnnAssign) else None)
+        if isinstance(tgt, ast.Name) and tgt.id == "eswc_cols":
+            pairs = [(x.elts[0].value, ast.unparse(x.elts[1])) for x in nd.value.elts]
+            return "[" + ", ".join(f"({json.dumps(a)}, {json.dumps(b)})" for a, b in pairs) + "]"
+    raise Untranslatable("eswc_cols not found")
+
+
+spec(lean="from_eswc_extras", module="AlgoReadFront", file=_RF_TREE, cls="Tree", func="from_eswc",
+     seg_from="extra_cols = list(extra_cols) if extra_cols is not None else []", seg_to="extra_cols.extend((k for k, t in eswc_cols))",
+     params=["extra_cols"], vars={"extra_cols": "Option (List String)", "extra_cols#2": "List String", "k": "String", "t": "String"},
+     ret="Unit", out=["extra_cols#2"],
+     subst={"eswc_cols": (_rf_eswc_cols(), "List (String × String)")},
+     doc="`swcgeom/core/tree.py::Tree.from_eswc`, the two statements that build the `extra_cols` handed to `from_swc` (`eswc_cols` is the module "
+         "constant of core/swc.py, read on every run)")
